@@ -380,6 +380,21 @@ def run_assemble(case, r):
         ok = iv.series and iv.time_num == b - a and list(iv.time) == [want_time(k) for k in range(a, b)] and list(iv.date) == [originals[k].date for k in range(a, b)]
         okd = all(np.array_equal(np.take(iv.img, j, axis=dim), originals[a + j].img) for j in range(b - a))
         r.check(ok and okd, cellb + "/time_interval", "time_interval of the assembled series returns the originals a..b-1 with their stamps", a=a, b=b, time=iv.time)
+    # ---- strided intervals (every 2nd / 3rd slice, bounded and open-ended): data AND stamps are those
+    # of the originals a, a+step, ...
+    for step in (2, 3):
+        for a in range(n):
+            for b in (None, n - 1):
+                ks = list(range(n))[slice(a, b, step)]
+                if not ks:
+                    continue
+                try:
+                    iv = series.time_interval(slice(a, b, step))
+                    ok = iv.series and iv.time_num == len(ks) and list(iv.time) == [want_time(k) for k in ks] and list(iv.date) == [originals[k].date for k in ks]
+                    okd = iv.img.shape[dim] == len(ks) and all(np.array_equal(np.take(iv.img, j, axis=dim), originals[k].img) for j, k in enumerate(ks))
+                    r.check(ok and okd, cellb + "/time_interval-strided", "time_interval(a:b:step) of the assembled series returns the originals a, a+step, ... with their stamps", a=a, b=b, step=step, time=iv.time, want=[want_time(k) for k in ks])
+                except Exception as e:  # noqa: BLE001
+                    r.fail(cellb + "/time_interval-strided", "a strided time interval is a legal selection", a=a, b=b, step=step, exception=repr(e)[:300])
     # ---- the assembled series is itself an operand: stacking it with one more image (and appending to
     # a copy) leaves the series as it was, and the longer series still returns the originals
     pre_series = digest(series)
